@@ -48,10 +48,20 @@ type produced struct {
 
 var boundary = []int{0, 1, 2, 65535, 65536, 65537, 131071, 131072, 131073, 196608, 196609}
 
+// sParty returns the passphrase party at a work factor. The recipient OBJECT
+// is created once per (name, work factor) and reused for every file of the
+// run, as an application encrypting several files to one passphrase would.
+var sPartyCache = map[string]*keys.Party{}
+
 func sParty(name string, logN int) *keys.Party {
+	k := fmt.Sprintf("%s/%d", name, logN)
+	if p, ok := sPartyCache[k]; ok {
+		return p
+	}
 	base := keys.P(name)
 	p := *base
 	p.Recipient = keys.ScryptRecipient(base.Pass, logN)
+	sPartyCache[k] = &p
 	return &p
 }
 
@@ -155,6 +165,10 @@ func encryptSide(r *mon.Run) {
 	// passphrase files at every work factor 1..12 (+ the default 18 in thorough)
 	for w := 1; w <= 12; w++ {
 		cases = append(cases, encCase{list: []string{"S1"}, length: w * 13, armored: w%2 == 0, logN: w})
+	}
+	for w := 1; w <= 12; w += 3 {
+		// the same recipient object a second and third time
+		cases = append(cases, encCase{list: []string{"S1"}, length: 5 + w, logN: w}, encCase{list: []string{"S1"}, length: 70000 + w, armored: true, logN: w})
 	}
 	if r.Thorough() {
 		cases = append(cases, encCase{list: []string{"S1"}, length: 10, logN: 18}, encCase{list: []string{"S2"}, length: 70000, armored: true, logN: 18})
